@@ -106,6 +106,8 @@ def funcs(ctx, module=None, stubs=None):
     # names the harness only supplies by default: a repository function of the same name, called by bare name, takes precedence
     fn['__defaults__'] = {k for k in fn if not k.startswith('__') and k not in (stubs or {})}
     fn.update(stubs or {})
+    if stubs and '__np_names__' in stubs:
+        fn['__defaults__'] |= set(stubs['__np_names__'])
     return fn
 
 
